@@ -1439,7 +1439,7 @@ pub assume_specification [<{q} as PartialEq>::eq] (a: &{q}, b: &{q}) -> (r: bool
         self.extracted.append((path, f'loop #{k} of fn {(impl + "::") if impl else ""}{fn} [loop only]'))
         return segs
 
-    def stmt_fn(self, path, impl, fn, k, name, sig, requires=(), ensures=(), trait=None, ghost_before='', ghost_after='', tail='', inner_closures=None):
+    def stmt_fn(self, path, impl, fn, k, name, sig, requires=(), ensures=(), trait=None, ghost_before='', ghost_after='', tail='', inner_closures=None, subst=()):
         """R17 (statement variant): the k-th top-level statement of a krill fn, verbatim, as the body of a standalone fn `name sig`."""
         kw = {'fn': fn}
         if impl is not None:
@@ -1475,7 +1475,21 @@ pub assume_specification [<{q} as PartialEq>::eq] (a: &{q}, b: &{q}) -> (r: bool
                 segs.append(Seg(',\n'))
         segs.append(Seg('/*VXCE*/{\n'))
         segs += self._ghost_segs(ghost_before, fid, clause_list)
-        segs += _apply_edits(src, ss, st_, self._inner_edits(src, e, ss, st_, fn) + self._nested_closure_edits(src, e, ss, st_, inner_closures, fid, clause_list, fn))
+        st_edits = self._inner_edits(src, e, ss, st_, fn) + self._nested_closure_edits(src, e, ss, st_, inner_closures, fid, clause_list, fn)
+        # tagged substitutions inside the lifted statement (R14), as in fn()
+        st_txt = src[ss:st_].decode()
+        for sb in subst:
+            old_, new_, tag_ = sb[0], sb[1], sb[2]
+            n_ = st_txt.count(old_)
+            if n_ != 1:
+                raise LostAnchor(f'{fn}: statement {k!r}: subst anchor {old_!r} matches {n_} times')
+            i_ = ss + len(st_txt[:st_txt.index(old_)].encode())
+            j_ = i_ + len(old_.encode())
+            st_edits = [x for x in st_edits if not (i_ <= x[0] and x[1] <= j_)]
+            st_edits.append((i_, j_, [Seg(new_)]))
+            if tag_:
+                self._rw(tag_)
+        segs += _apply_edits(src, ss, st_, st_edits)
         segs.append(Seg('\n'))
         segs += self._ghost_segs(ghost_after, fid, clause_list)
         segs.append(Seg(tail + '\n}'))
